@@ -209,7 +209,158 @@ class T16(ast.NodeTransformer):
     return node
 
 
-TS = {'T7': T7, 'T8': T8, 'T9': T9, 'T15': T15, 'T16': T16, 'T1': T1, 'T2': T2, 'T3': T3, 'T4': T4, 'T5': T5, 'T6': T6}
+class T17(ast.NodeTransformer):
+  """super(Cls, self)  ->  super()   inside methods of Cls"""
+  def visit_ClassDef(self, node):
+    cname = node.name
+    for m in node.body:
+      if isinstance(m, ast.FunctionDef) and m.args.args and m.args.args[0].arg == 'self' and not any(isinstance(x, (ast.Lambda, ast.ListComp, ast.GeneratorExp, ast.DictComp, ast.SetComp)) and
+                                                                                                     any(isinstance(y, ast.Call) and isinstance(y.func, ast.Name) and y.func.id == 'super' for y in ast.walk(x)) for x in ast.walk(m)):
+        for c in ast.walk(m):
+          if isinstance(c, ast.Call) and isinstance(c.func, ast.Name) and c.func.id == 'super' and len(c.args) == 2 and isinstance(c.args[0], ast.Name) and c.args[0].id == cname \
+             and isinstance(c.args[1], ast.Name) and c.args[1].id == 'self':
+            # only directly in the method (not in nested functions)
+            nested = [f for f in ast.walk(m) if isinstance(f, ast.FunctionDef) and f is not m and any(y is c for y in ast.walk(f))]
+            if not nested:
+              c.args = []
+    self.generic_visit(node)
+    return node
+
+
+class T18(ast.NodeTransformer):
+  """annotations: `x = <int/str/bool/None constant>` -> `x: T = ...` for plain local names; `-> None` on functions without a value return"""
+  def visit_FunctionDef(self, node):
+    self.generic_visit(node)
+    if node.returns is None and not any(isinstance(x, ast.Return) and x.value is not None for x in ast.walk(node)) and not any(isinstance(x, (ast.Yield, ast.YieldFrom)) for x in ast.walk(node)):
+      node.returns = ast.Constant(value=None)
+    seen = set()
+    glob = set(n for x in ast.walk(node) if isinstance(x, (ast.Global, ast.Nonlocal)) for n in x.names)
+    out = []
+    for st in node.body:
+      if isinstance(st, ast.Assign) and len(st.targets) == 1 and isinstance(st.targets[0], ast.Name) and isinstance(st.value, ast.Constant) and type(st.value.value) in (int, bool, str) \
+         and st.targets[0].id not in seen and st.targets[0].id not in glob:
+        seen.add(st.targets[0].id)
+        out.append(ast.AnnAssign(target=st.targets[0], annotation=ast.Name(id=type(st.value.value).__name__, ctx=ast.Load()), value=st.value, simple=1))
+      else:
+        out.append(st)
+    node.body = out
+    return node
+
+
+class T20(ast.NodeTransformer):
+  """bare `except:` -> `except BaseException:`"""
+  def visit_ExceptHandler(self, node):
+    self.generic_visit(node)
+    if node.type is None:
+      node.type = ast.Name(id='BaseException', ctx=ast.Load())
+    return node
+
+
+class T30(ast.NodeTransformer):
+  """loop bodies: `if c: continue; REST`  ->  `if not c: REST`   (guard at the start of a for/while body, REST without else)"""
+  def _loop(self, node):
+    self.generic_visit(node)
+    b = node.body
+    if len(b) >= 2 and isinstance(b[0], ast.If) and not b[0].orelse and len(b[0].body) == 1 and isinstance(b[0].body[0], ast.Continue):
+      t = b[0].test
+      neg = t.operand if isinstance(t, ast.UnaryOp) and isinstance(t.op, ast.Not) else ast.UnaryOp(op=ast.Not(), operand=t)
+      node.body = [ast.If(test=neg, body=b[1:], orelse=[])]
+    return node
+  visit_For = _loop
+  visit_While = _loop
+
+
+class T31(ast.NodeTransformer):
+  """`for i in range(0, n)` -> `range(n)`;  `len(x) == 0` on list/deque attrs untouched;  `d.get(k, None)` -> `d.get(k)`"""
+  def visit_Call(self, node):
+    self.generic_visit(node)
+    if isinstance(node.func, ast.Name) and node.func.id == 'range' and len(node.args) == 2 and isinstance(node.args[0], ast.Constant) and node.args[0].value == 0:
+      node.args = node.args[1:]
+    if isinstance(node.func, ast.Attribute) and node.func.attr == 'get' and len(node.args) == 2 and isinstance(node.args[1], ast.Constant) and node.args[1].value is None and not node.keywords:
+      node.args = node.args[:1]
+    return node
+
+
+class T33(ast.NodeTransformer):
+  """class X(object) -> class X"""
+  def visit_ClassDef(self, node):
+    self.generic_visit(node)
+    if len(node.bases) == 1 and isinstance(node.bases[0], ast.Name) and node.bases[0].id == 'object' and not node.keywords:
+      node.bases = []
+    return node
+
+
+class T39(ast.NodeTransformer):
+  """import M; M.f(...)  ->  from M import f; f(...)   for M in heapq, functools, random, math (names that are not otherwise bound in the module)"""
+  MODS = ('heapq', 'functools', 'random', 'math')
+  def visit_Module(self, node):
+    bound = set(n.id for n in ast.walk(node) if isinstance(n, ast.Name) and isinstance(n.ctx, ast.Store)) | set(a.arg for n in ast.walk(node) if isinstance(n, ast.arguments) for a in n.args + n.kwonlyargs) | \
+      set(n.name for n in ast.walk(node) if isinstance(n, (ast.FunctionDef, ast.ClassDef)))
+    for al in [a for n in ast.walk(node) if isinstance(n, (ast.Import, ast.ImportFrom)) for a in n.names]:
+      bound.add((al.asname or al.name).split('.')[0])
+    used = {}
+    for m in self.MODS:
+      imp = [st for st in node.body if isinstance(st, ast.Import) and any(a.name == m and a.asname is None for a in st.names)]
+      if not imp:
+        continue
+      refs = [n for n in ast.walk(node) if isinstance(n, ast.Attribute) and isinstance(n.value, ast.Name) and n.value.id == m]
+      bare = [n for n in ast.walk(node) if isinstance(n, ast.Name) and n.id == m]
+      if len(bare) != len(refs) or not refs or any(r.attr in bound for r in refs):
+        continue
+      used[m] = sorted(set(r.attr for r in refs))
+    if not used:
+      return node
+
+    class R(ast.NodeTransformer):
+      def visit_Attribute(self, n):
+        self.generic_visit(n)
+        if isinstance(n.value, ast.Name) and n.value.id in used:
+          return ast.copy_location(ast.Name(id=n.attr, ctx=n.ctx), n)
+        return n
+    node = R().visit(node)
+    out = []
+    for st in node.body:
+      if isinstance(st, ast.Import) and any(a.name in used for a in st.names):
+        keep = [a for a in st.names if a.name not in used]
+        for a in st.names:
+          if a.name in used:
+            out.append(ast.ImportFrom(module=a.name, names=[ast.alias(name=x) for x in used[a.name]], level=0))
+        if keep:
+          st.names = keep
+          out.append(st)
+      else:
+        out.append(st)
+    node.body = out
+    return node
+
+
+class T40(ast.NodeTransformer):
+  """from struct import pack, unpack  ->  import struct; struct.pack(...)"""
+  def visit_Module(self, node):
+    imp = [st for st in node.body if isinstance(st, ast.ImportFrom) and st.module == 'struct' and st.level == 0 and all(a.asname is None for a in st.names)]
+    if not imp:
+      return node
+    names = set(a.name for st in imp for a in st.names)
+    stores = set(n.id for n in ast.walk(node) if isinstance(n, ast.Name) and isinstance(n.ctx, ast.Store)) | set(a.arg for n in ast.walk(node) if isinstance(n, ast.arguments) for a in n.args)
+    if names & stores or any(isinstance(n, ast.Name) and n.id == 'struct' for n in ast.walk(node)):
+      return node
+
+    class R(ast.NodeTransformer):
+      def visit_Name(self, n):
+        if n.id in names and isinstance(n.ctx, ast.Load):
+          return ast.copy_location(ast.Attribute(value=ast.Name(id='struct', ctx=ast.Load()), attr=n.id, ctx=ast.Load()), n)
+        return n
+    node = R().visit(node)
+    node.body = [ast.Import(names=[ast.alias(name='struct')]) if st in imp else st for st in node.body]
+    return node
+
+
+class T41(T39):
+  """like T39 for time and gevent"""
+  MODS = ('time', 'gevent')
+
+
+TS = {'T41': T41, 'T33': T33, 'T39': T39, 'T40': T40, 'T17': T17, 'T18': T18, 'T20': T20, 'T30': T30, 'T31': T31, 'T7': T7, 'T8': T8, 'T9': T9, 'T15': T15, 'T16': T16, 'T1': T1, 'T2': T2, 'T3': T3, 'T4': T4, 'T5': T5, 'T6': T6}
 
 
 def main():
